@@ -200,6 +200,28 @@ open ElaVerif.CoinbaseTotal in
 /-- NEGATION (pre-fix code): empty and one-byte program codes. -/
 theorem C03_crcArbitersMN_unguarded_panics : crcArbitersMN false [] = .panic ∧ crcArbitersMN false [0x52] = .panic := by decide
 
+/-! ## round 5: cross-chain output index, RevertToDPOS programs -/
+open ElaVerif.CoinbaseTotal in
+/-- the TransferCrossChainAsset (payload version 0) index test, after the fix (compared as uint64), protects both
+    later reads `Outputs()[OutputIndexes[i]]`, for every uint64 index and output count. -/
+theorem C03_crossChainIndex_total (nOut idx : Nat) : crossChainIndex true nOut idx ≠ .panic := crossChainIndex_total nOut idx
+example : ElaVerif.CoinbaseTotal.crossChainIndex true 2 1 = .val false ∧ ElaVerif.CoinbaseTotal.crossChainIndex true 2 (2 ^ 63) = .val true := by decide
+
+open ElaVerif.CoinbaseTotal in
+/-- NEGATION (pre-fix code): `int(outputIndex)` of 2^63 is negative, passes `>= len(outputs)`, and the read panics. -/
+theorem C03_crossChainIndex_unfixed_panics : crossChainIndex false 1 (2 ^ 63) = .panic ∧ crossChainIndex false 3 (2 ^ 64 - 1) = .panic := by decide
+
+open ElaVerif.CoinbaseTotal in
+/-- `blockchain.CheckRevertToDPOSTransaction` (called by the DPoS network handler before any sanity check) never
+    panics after the fix: no programs and short codes are errors. -/
+theorem C03_revertToDPOSCheck_total (nPrograms : Nat) (code : Bytes) : revertToDPOSCheck true nPrograms code ≠ .panic :=
+  revertToDPOSCheck_total nPrograms code
+
+open ElaVerif.CoinbaseTotal in
+/-- NEGATION (pre-fix code): no program at all; one program with an empty code. -/
+theorem C03_revertToDPOSCheck_unguarded_panics :
+    revertToDPOSCheck false 0 [] = .panic ∧ revertToDPOSCheck false 1 [] = .panic := by decide
+
 /-! ## T-gen: the accesses and guards of the real functions are the ones the models were written against -/
 
 /-- opcode / prefix / size constants used by the models are the repository's. -/
